@@ -2,12 +2,17 @@
 package registry
 
 import (
+	"verif/engine/h/c11"
 	"verif/engine/h/c13"
 	"verif/engine/h/c15"
 	"verif/engine/h/selftest"
 )
 
 var Entries = map[string]func(){
+	"c11.H_String":        c11.H_String,
+	"c11.H_Value":         c11.H_Value,
+	"c11.H_Traversal":     c11.H_Traversal,
+	"c11.H_Writer":        c11.H_Writer,
 	"c15.H_Bytes":         c15.H_Bytes,
 	"c15.H_Seed":          c15.H_Seed,
 	"c13.H_Accept":        c13.H_Accept,
